@@ -584,6 +584,9 @@ class FromPandasDivisions(FromPandas):
             else:
                 # get_indexer doesn't support method
                 indexer = np.searchsorted(data.index.values, key, side="left")
+            # ``get_indexer(method="bfill")`` answers -1 for a division
+            # beyond the last index value: nothing is at or after it
+            indexer[indexer < 0] = len(data)
             indexer[-1] = len(data)
             _division_info_cache[key] = key, indexer
         return _division_info_cache[key]
